@@ -112,6 +112,10 @@ func (h accountsResourceHandler) ResolveFilter(opts common.ResourceQuery[any], o
 
 	case common.MetadataRegex.Match([]byte(property)):
 		match := common.MetadataRegex.FindAllStringSubmatch(property, 3)
+		if operator == queries.OperatorIn {
+			// membership: `metadata @> {"k": [...]}` would test containment of an array and never match
+			return "metadata ->> ? IN (?)", []any{match[0][1], bun.In(value)}, nil
+		}
 
 		return "metadata @> ?", []any{map[string]any{
 			match[0][1]: value,
